@@ -494,7 +494,24 @@ class PathEnum:
                 if o1 != "normal":
                     yield (e1, a1, o1)
                     continue
+                # a scrutinee that is itself a match / if / block has, on this path, a known leaf; when that leaf is a
+                # constructor (Ok(..), Err(..), Some(..), None) only the arms that can take it are feasible
+                known = None
+                sc0 = peel(n["scrut"])
+                if kind(sc0) in ("Match", "If", "Block"):
+                    leaf = chosen_leaf(sc0, e1)
+                    if leaf is not None:
+                        lf = peel(leaf)
+                        if kind(lf) == "Call" and isinstance(callee(lf), str) and callee(lf).split("::")[-1] in ("Ok", "Err", "Some"):
+                            known = callee(lf)
+                        elif kind(lf) == "Path" and str(lf.get("path", "")).endswith("Option::None"):
+                            known = lf["path"]
                 for i, arm in enumerate(n["arms"]):
+                    if known is not None:
+                        vs = [str(v) for v in pat_variants(arm["pat"])]
+                        top = [v for v in vs if v.split("::")[-1] in ("Ok", "Err", "Some", "None")]
+                        if top and known not in top and not pat_is_catchall(arm["pat"]):
+                            continue
                     self._tick()
                     e2 = e1 + (Ev("arm", n, i),)
                     if arm.get("guard") is not None:
@@ -631,6 +648,49 @@ def tail_leaves(n):
             out.extend(tail_leaves(a["body"]))
         return out
     return [n]
+
+
+def chosen_leaf(expr, ev):
+    """The tail leaf of expr (a match / if / block expression) that was evaluated on the path ev, or None."""
+    e = expr
+    for _ in range(12):
+        e = peel(e)
+        k = kind(e)
+        if k == "Match":
+            hit = None
+            for x in ev:
+                if x.kind == "arm" and x.node is e:
+                    hit = x
+            if hit is None:
+                return None
+            e = e["arms"][hit.extra]["body"]
+        elif k == "If":
+            hit = None
+            for x in ev:
+                if x.kind == "cond" and x.node is e["cond"]:
+                    hit = x
+            if hit is None:
+                return None
+            if hit.extra:
+                e = e["then"]
+            elif e.get("else") is not None:
+                e = e["else"]
+            else:
+                return None
+        elif k == "Block":
+            if e.get("label") is not None or e.get("inlined") or e.get("desugared"):
+                # value may come from a `break 'l v`
+                tails = [x.node for x in ev if x.kind == "tail"]
+                brk = [y for y in walk(e) if y.get("k") == "Break" and y.get("target") == e.get("id") and y.get("e") is not None]
+                for y in brk:
+                    if any(tn is y["e"] for tn in tails):
+                        return y["e"]
+            if e.get("expr") is None:
+                return None
+            e = e["expr"]
+        else:
+            return e
+    return None
 
 
 def path_value(ev):
